@@ -54,6 +54,8 @@ FAULTS = {
     'accent_punct': ('A \\^{!} Keep', {}, 2, ['Keep']),
     'accent_unknown': ('A \\v{x} Keep', {}, 2, ['Keep']),
     'ltinput': ('A \\LTinput{/nonexistent/q.tex} Keep', {}, 2, ['Keep']),
+    'after_empty_ltinput': ('\\LTinput{/verif/vf/data/empty.tex}A \\LTadd{Keep Also', {}, 42, ['Keep', 'Also']),
+    'after_ltinput_defs': ('\\LTinput{/verif/vf/data/defs_mo.tex}\nA \\mo{x} $y Keep', {}, 46, []),
     'gls': ('A \\gls{nolabel} Keep', {'pack': 'glossaries'}, 2, ['Keep']),
     'def_noname': ('A \\def', {}, 2, []),
     'def_nobody': ('A \\def\\foo#1', {}, 2, []),
